@@ -14,6 +14,7 @@
 import OrxPar.Lemmas.Logged
 import OrxPar.Lemmas.KernelsW
 import OrxPar.Lemmas.Ticket
+import OrxPar.Lemmas.Panic
 namespace OrxPar
 
 /-- **C05 (full-visit).** -/
@@ -28,6 +29,15 @@ theorem C05_full_counts (s : Src) (ops : List Op) (ex : Exec)
     (e : Event) :
     ((Par.build s ops).2 ++ (Par.build s ops).1.fullLog ex).count e = (seqStream s.items ops).log.count e :=
   (C05_full s ops ex h).count_eq e
+
+/-- **C05 (terminal closures included).** the invocations of the terminal phase as the check's
+    driver computes them (`Par.termLog`: chain closures, the `for_each` closure — `for_each` being
+    `map(f).count()`, possibly through an eager site) are, under every accepted execution, a
+    permutation of the sequential ones -/
+theorem C05_term_events (P : Par) (ex : Exec) (t : Terminal) (hsc : t.isShortCircuit = false)
+    (h : (P.forTerminal t).1.params.isSequential = true ∨ ex.Accepts (P.forTerminal t).1.src.items) :
+    (P.termLog ex t).Perm (P.possibleLog t) :=
+  Par.termLog_perm_full P ex t hsc h
 
 /-- **C05 (kernels).** the per-element work of each kernel family, transcribed with logged
     closures (`mapFilStep`, `filtermapFilStep`, `flatmapFilStep`) and given the closures its
